@@ -3,6 +3,7 @@ import PRV.Driver.C10
 import PRV.Driver.C20
 import PRV.Driver.C11
 import PRV.Driver.C07
+import PRV.Driver.C12
 
 open PRV.Driver
 
@@ -15,4 +16,6 @@ def main (args : List String) : IO UInt32 := do
   | ["monitor", "c20"] => runMonitor C20.monitor; return 0
   | ["monitor", "c11"] => runMonitor C11.monitor; return 0
   | ["model", "c07"] => run C07.machine; return 0
+  | ["model", "c12"] => run C12.machine; return 0
+  | ["monitor", "c12"] => runMonitor C12.monitor; return 0
   | _ => IO.eprintln "usage: prvdrv (model|spec) <property>"; return 2
